@@ -60,6 +60,26 @@ echo (new B@(1))->link(new C@(5))->sum(), ",", (new C@(1))->link(new B@(6))->sum
   public function __construct() { $this->id = self::next(); } public static function make() { $o = new A@(); return $o->id; } public function id() { return $this->id; } }
 class B@ extends A@ {}
 echo A@::make(), (new B@())->id();`, "12"},
+		// round 8: other ways INTO a method body. The body belongs to the class where it is written whichever way it
+		// is entered: a first-class callable of a method keeps the object and its class; a callable array handed to a
+		// native function (array_map) runs the named method as code of ITS class on ITS object, not in the context of
+		// the code that called the native function.
+		{"firstClassCallableMethod", `class A@ { private $p = 10; public function own() { return $this->p; } public function of($o) { return $o->p; } }
+$s = new A@(); $f = $s->of(...); $g = $s->own(...);
+try { echo $f(new A@()); } catch (\Throwable $e) { echo "refused"; } echo ",";
+try { echo $g(); } catch (\Throwable $e) { echo "refused"; }`, "10,10"},
+		{"nativeCallbackForeignMethod", `class B@ { private $q = 7; public function peek($o) { return $o->p; } public function own($o) { return $this->q; } }
+class A@ { private $p = 1;
+  public function leak($b) { return implode(",", array_map([$b, "peek"], [$this])); }
+  public function legit($b) { return implode(",", array_map([$b, "own"], [$this])); } }
+$a = new A@(); $b = new B@();
+try { echo $a->leak($b); } catch (\Throwable $e) { echo "refused"; } echo ";";
+try { echo $a->legit($b); } catch (\Throwable $e) { echo "failed"; }`, "refused;7"},
+		{"generatorInherited", `class A@ { private $p = 3; private function h() { return "h"; }
+  public function g() { yield $this->p; yield $this->h(); $this->p = 4; yield $this->p; }
+  public function peek() { yield "s"; try { yield $this->q; } catch (\Throwable $e) { yield "refused"; } } }
+class B@ extends A@ { private $q = 9; }
+foreach ((new B@())->g() as $v) { echo $v; } echo ","; foreach ((new B@())->peek() as $v) { echo $v; }`, "3h4,srefused"},
 	}
 }
 
